@@ -1136,6 +1136,20 @@ class Typer:
             # iterating the result yields the keys: the elements of the argument, each once
             k = self._iter_elem(argv[0][1])
             typ = seq(k) if k is not None else typ
+        if isinstance(e.func, ast.Attribute) and e.func.attr in ("get", "pop") and e.args and isinstance(e.args[0], ast.Constant) \
+                and isinstance(e.args[0].value, str) and (typ is None or is_top(typ)):
+            # a saved instance dict (pickle state) read under the name of a link field: the parent entry is a node or None,
+            # the children entry a list of nodes (plus whatever the default is)
+            key = e.args[0].value
+            link = None
+            for m_ in T.MIXINS:
+                if key == "_%s__parent" % m_:
+                    link = OPT_NODE
+                elif key == "_%s__children" % m_:
+                    link = NODE_SEQ
+            if link is not None:
+                d_ = argv[1][1] if len(argv) > 1 and argv[1][0] == "" else NONE
+                typ = join(link, d_) if d_ is not None and not is_top(d_) else link
         if ft is not None:
             ft.calls[id(e)] = res
         return typ
